@@ -24,6 +24,7 @@ import (
 	"time"
 
 	"github.com/anyproto/any-sync/app"
+	"github.com/anyproto/any-sync/commonspace"
 	"github.com/anyproto/any-sync/app/logger"
 
 	"verif/lib/vk"
@@ -50,6 +51,9 @@ type failSpec struct {
 type caseT struct {
 	Levels [][]compSpec `json:"levels"` // Levels[0] = root container, Levels[1] = its child, ...
 	Fail   *failSpec    `json:"fail,omitempty"`
+	// ViaSpace: the deepest container is started the way a space starts its child container (commonspace space.Init);
+	// the space may not add or repeat component calls
+	ViaSpace bool `json:"via_space,omitempty"`
 }
 
 func (cs caseT) String() string {
@@ -78,6 +82,9 @@ func (cs caseT) String() string {
 	}
 	if cs.Fail != nil {
 		fmt.Fprintf(&sb, " fail=%s(%d.%d)", cs.Fail.Phase, cs.Fail.Level, cs.Fail.Idx)
+	}
+	if cs.ViaSpace {
+		sb.WriteString(" (deepest container started by space.Init)")
 	}
 	return sb.String()
 }
@@ -510,7 +517,12 @@ func runCase(cs caseT) (observation, *harness) {
 			for _, comp := range row {
 				a.Register(comp)
 			}
-			err := a.Start(ctx)
+			var err error
+			if cs.ViaSpace && l > 0 && l == len(cs.Levels)-1 {
+				err, _ = commonspace.VerifSpaceInit(ctx, a)
+			} else {
+				err = a.Start(ctx)
+			}
 			h.nStart++
 			obs.StartErrs = append(obs.StartErrs, err)
 			if err != nil {
@@ -938,6 +950,13 @@ func body(c *vk.Ctx) {
 					cs := caseT{Levels: levels, Fail: f}
 					one(c, t, cs, w)
 					k++
+					if f != nil && len(levels) == 2 {
+						// the same failing start through space.Init (depth-1 nestings: a space is a child of the app)
+						vs := cs
+						vs.ViaSpace = true
+						one(c, t, vs, w)
+						k++
+					}
 					if len(levels) == 3 && u == len(lists2)-1 && (k == 2000 || k == 4001) {
 						obs, _ := runCase(cs)
 						c.Sample(map[string]any{"case": cs.String(), "call_log": logStr(obs.Log)})
